@@ -7,7 +7,7 @@ ids="$*"; [ -z "$ids" ] && ids=$(ls seeded)
 for id in $ids; do
   if ! git -C /repo apply --check $V/seeded/$id/patch.diff 2>/dev/null; then echo "$id: patch does not apply"; continue; fi
   git -C /repo apply $V/seeded/$id/patch.diff
-  out=$(./check $id --tier quick 2>&1); rc=$?
+  out=$(./check ${id:0:3} --tier quick 2>&1); rc=$?
   git -C /repo checkout -- .
   line=$(echo "$out" | grep -E '^VIOLATION' | head -1)
   echo "$id: exit=$rc ${line:-NOT DETECTED}"
